@@ -19,14 +19,14 @@ PROP = 'cssutils/css/property.py'
 
 
 def run(chk):
-    r10a(chk)
-    r10b(chk)
-    r10c(chk)
-    r10d(chk)
-    r10e(chk)
-    r10f(chk)
-    r10g(chk)
-    r10h(chk)
+    chk.attempt(r10a, chk)
+    chk.attempt(r10b, chk)
+    chk.attempt(r10c, chk)
+    chk.attempt(r10d, chk)
+    chk.attempt(r10e, chk)
+    chk.attempt(r10f, chk)
+    chk.attempt(r10g, chk)
+    chk.attempt(r10h, chk)
 
 
 # ---------------------------------------------------------------------------
